@@ -207,9 +207,24 @@ impl Sim {
         // Deterministic sample: stride through the set.
         let stride = if full { 1 } else { (all.len() / 24).max(1) };
         let mut locs = Vec::new();
-        for id in all.iter().step_by(stride) {
+        let file = self.is_file(r);
+        for (i, id) in all.iter().step_by(stride).enumerate() {
             let a = self.addr(id);
+            // File-backed replicas: every seventh lookup runs with a read error placed inside it.
+            // It may then fail, but it may not answer wrongly.
+            let faulty = file && (i + self.step_no) % 7 == 0;
+            if let (true, Some(fs)) = (faulty, &self.fs) {
+                fs.arm_read_fault(((i * 13 + self.step_no) % 12) as u32);
+            }
             let found = with_rep!(&mut self.reps[r], rep => rep.locate(gid, a));
+            let fired = faulty && self.fs.as_ref().is_some_and(|fs| fs.disarm_read_fault());
+            if fired {
+                self.stats.bump("fault.read_eio_in_lookup");
+                if found.is_err() {
+                    self.stats.bump("fault.read_eio_lookup_failed");
+                    continue;
+                }
+            }
             match found {
                 Ok(Some(loc)) => {
                     let at = with_rep!(&mut self.reps[r], rep => rep.id_at(gid, loc));
@@ -247,7 +262,17 @@ impl Sim {
                 let (ia, la) = locs[i];
                 let (ib, lb) = locs[j];
                 let want = self.g.is_ancestor(&ia, &ib);
-                match with_rep!(&mut self.reps[r], rep => rep.is_ancestor(gid, la, lb)) {
+                let faulty = file && (i * 5 + j + self.step_no) % 11 == 0;
+                if let (true, Some(fs)) = (faulty, &self.fs) {
+                    fs.arm_read_fault(((i + j * 7 + self.step_no) % 10) as u32);
+                }
+                let answer = with_rep!(&mut self.reps[r], rep => rep.is_ancestor(gid, la, lb));
+                let fired = faulty && self.fs.as_ref().is_some_and(|fs| fs.disarm_read_fault());
+                if fired && answer.is_err() {
+                    self.stats.bump("fault.read_eio_ancestry_failed");
+                    continue;
+                }
+                match answer {
                     Ok(got) if got == want => {}
                     Ok(got) => {
                         self.violation("C11", "C11.ancestry", "is-ancestor-wrong", format!("{ctx}: replica {r} is_ancestor({} -> {}) = {got}, model says {want}", short(&ia), short(&ib)));
